@@ -169,6 +169,12 @@ def hPlan : Handler := handler fun args =>
     | .error e => pure (encPErr e)
   | _ => none
 
+/-- `(balance (cs…))` ↦ `_balance_chunksizes` -/
+def hBalance : Handler := handler fun args =>
+  match args with
+  | [cs] => do pure (SExp.ofNats (balanceChunks (← cs.toNats?)))
+  | _ => none
+
 /-- `(rechunk_locate (old…) (new…))` ↦ for every new block the `(old block, offset)` of each of its elements -/
 def hRechunkLocate : Handler := handler fun args =>
   match args with
@@ -840,6 +846,7 @@ def table : List (String × Handler) := [
   ("old_to_new", hOldToNew), ("rechunk1d", hRechunk1d), ("divide_to_width", hDivide),
   ("merge_to_number", hMergeNum), ("graph_size", hGraphSize),
   ("merge_full", hMergeFull), ("find_split", hFindSplit), ("find_merge", hFindMerge), ("plan", hPlan),
-  ("rechunk_locate", hRechunkLocate), ("auto_chunks", hAutoChunks), ("auto_sound", hAutoSound)]
+  ("rechunk_locate", hRechunkLocate), ("auto_chunks", hAutoChunks), ("auto_sound", hAutoSound),
+  ("balance", hBalance)]
 
 def main : IO Unit := runDriver table
